@@ -440,15 +440,18 @@ func models(run *report.Run) []*explore.Model {
 	for _, c := range configs(run.Thorough()) {
 		c := c
 		d, n := depth, nd
-		if c.fileLog > 0 && !run.Thorough() {
+		if c.fileLog > 0 {
 			// file-backed configurations carry two extra dimensions (directory fault, retention sweep) and do real
-			// file I/O per step: one level shallower in the quick tier
+			// file I/O per step: quick 5 / thorough 6 levels instead of 6 / 8
 			d, n = depth-1, nd-1
+			if run.Thorough() {
+				d, n = depth-2, nd-1
+			}
 		}
 		ms = append(ms, &explore.Model{
 			Name: "nat.Manager", Config: fmt.Sprintf("%s bulk=%v subs=%d", c.name, c.bulk, c.subs),
 			New:   func() explore.System { return newSys(c) },
-			Depth: d, NoDedupDepth: n, Classify: classify,
+			Depth: d, NoDedupDepth: n, Classify: classify, Budget: 6 * time.Minute,
 		})
 	}
 	return ms
